@@ -247,9 +247,13 @@ func (s *Scanner) Scan(src interface{}) error {
 	// }
 	switch {
 	case s.Tags.Contains("binary"):
+		// BINARY/VARBINARY columns are decoded as strings by the binlog reader.
+		if str, ok := src.(string); ok {
+			src = []byte(str)
+		}
 		b, ok := src.([]byte)
 		if !ok {
-			return fmt.Errorf("binary column must be of type []byte, got %T", src)
+			return fmt.Errorf("binary column must be of type []byte or string, got %T", src)
 		}
 		if iface, ok := i.(unmarshaler); ok {
 			return iface.Unmarshal(b)
